@@ -80,8 +80,33 @@ NOT_EXEMPT_CONSTRUCTS = {
 }
 
 
+def _imagedepth_guard_present(repo):
+    """ImageDepth.__call__ reaches _make_all_coords(mask) only in the else-branch of
+    `mask is None or not np.any(mask)`."""
+    import ast as _ast
+    from ..guards import guard_of, atoms
+    f = repo.functions.get('photutils.utils.depths.ImageDepth.__call__')
+    if f is None:
+        return False
+    for n in _ast.walk(f.node):
+        if isinstance(n, _ast.Call) and isinstance(n.func, _ast.Attribute) and n.func.attr == '_make_all_coords':
+            g = guard_of(n, f.node)
+            return any('np.any(mask)' in a for a in atoms(g))
+    return False
+
+
+# exemptions that hold only while a structural condition is true
+CONDITIONAL = {
+    ('photutils.utils.depths.ImageDepth._mask_border', 'mask'): _imagedepth_guard_present,
+}
+_repo_for_exempt = [None]
+
+
 def _exempt(site, name):
     fn = site.finfo.fullname
+    cond = CONDITIONAL.get((fn, name))
+    if cond is not None and _repo_for_exempt[0] is not None and not cond(_repo_for_exempt[0]):
+        return None
     if (fn, norm_stmt_text(site.stmt)) in NOT_EXEMPT_CONSTRUCTS:
         return None
     return EXEMPT.get((fn, name)) or EXEMPT.get((fn, '*'))
@@ -89,6 +114,7 @@ def _exempt(site, name):
 
 def collect(repo, res, modules=None):
     d, ft = get_alias(repo)
+    _repo_for_exempt[0] = repo
     used_exempt = set()
     n_entries = 0
     # (i) parameters of public entry points
@@ -112,6 +138,8 @@ def collect(repo, res, modules=None):
                 # the root site's own parameter names
                 if why is None:
                     for (fn, nm), w in EXEMPT.items():
+                        if CONDITIONAL.get((fn, nm)) is not None and not CONDITIONAL[(fn, nm)](repo):
+                            continue
                         if fn == s.finfo.fullname and nm in s.finfo.params and \
                                 (fn, norm_stmt_text(s.stmt)) not in NOT_EXEMPT_CONSTRUCTS and \
                                 _mentions(s.stmt, nm):
